@@ -69,31 +69,34 @@ Proof.
   destruct (outside_left pos); [apply left_to_ext|].
   destruct (outside_right pos); [apply right_to_ext|apply inside_refl].
 Qed.
-Lemma st_label_ext s b : inside b (st_label s b).
+Section Gen.
+Variable ltl : shape -> N -> Z -> Z -> Z * Z.
+
+Lemma st_label_ext s b : inside b (st_label ltl s b).
 Proof.
   unfold st_label. destruct (s_label s) as [[[pos lw] lh]|]; [|apply inside_refl].
-  destruct (bbox_label_tl s pos lw lh). apply inside_join_l.
+  destruct (ltl s pos lw lh). apply inside_join_l.
 Qed.
 
 (* chains *)
-Lemma after_label s b r : inside r b -> inside r (st_label s b).
+Lemma after_label s b r : inside r b -> inside r (st_label ltl s b).
 Proof. intro H. eapply inside_trans; [exact H|apply st_label_ext]. Qed.
-Lemma after_icon s b r : inside r b -> inside r (st_label s (st_icon s b)).
+Lemma after_icon s b r : inside r b -> inside r (st_label ltl s (st_icon s b)).
 Proof. intro H. apply after_label. eapply inside_trans; [exact H|apply st_icon_ext]. Qed.
-Lemma after_mult s b r : inside r b -> inside r (st_label s (st_icon s (st_mult s b))).
+Lemma after_mult s b r : inside r b -> inside r (st_label ltl s (st_icon s (st_mult s b))).
 Proof. intro H. apply after_icon. eapply inside_trans; [exact H|apply st_mult_ext]. Qed.
-Lemma after_3d s b r : inside r b -> inside r (st_label s (st_icon s (st_mult s (st_3d s b)))).
+Lemma after_3d s b r : inside r b -> inside r (st_label ltl s (st_icon s (st_mult s (st_3d s b)))).
 Proof. intro H. apply after_mult. eapply inside_trans; [exact H|apply st_3d_ext]. Qed.
-Lemma after_shadow s b r : inside r b -> inside r (st_label s (st_icon s (st_mult s (st_3d s (st_shadow s b))))).
+Lemma after_shadow s b r : inside r b -> inside r (st_label ltl s (st_icon s (st_mult s (st_3d s (st_shadow s b))))).
 Proof. intro H. apply after_3d. eapply inside_trans; [exact H|apply st_shadow_ext]. Qed.
 Lemma after_app s b r : inside r b ->
-  inside r (st_label s (st_icon s (st_mult s (st_3d s (st_shadow s (st_app s b)))))).
+  inside r (st_label ltl s (st_icon s (st_mult s (st_3d s (st_shadow s (st_app s b)))))).
 Proof. intro H. apply after_shadow. eapply inside_trans; [exact H|apply st_app_ext]. Qed.
 Lemma after_c4 s b r : inside r b ->
-  inside r (st_label s (st_icon s (st_mult s (st_3d s (st_shadow s (st_app s (st_c4 s b))))))).
+  inside r (st_label ltl s (st_icon s (st_mult s (st_3d s (st_shadow s (st_app s (st_c4 s b))))))).
 Proof. intro H. apply after_app. eapply inside_trans; [exact H|apply st_c4_ext]. Qed.
 
-Lemma step_shape_ext b s : inside b (step_shape b s).
+Lemma step_shape_ext b s : inside b (step_shape ltl b s).
 Proof. unfold step_shape. apply after_c4, st_box_ext. Qed.
 
 Definition box_rect (s : shape) : rect :=
@@ -110,7 +113,7 @@ Proof. unfold off3d, THREE_DEE_OFFSET. destruct (s_hex s); lia. Qed.
 
 (* ---- every core extent of a shape is inside the box after its step ---- *)
 Lemma core_in_step b s r :
-  0 <= s_sw s -> 0 <= s_w s -> 0 <= s_h s -> In r (core_extents s) -> inside r (step_shape b s).
+  0 <= s_sw s -> 0 <= s_w s -> 0 <= s_h s -> In r (core_extents s) -> inside r (step_shape ltl b s).
 Proof.
   intros Hsw Hw Hh Hin. pose proof (half_stroke_le (s_sw s) Hsw) as [H0 H1]. pose proof (off3d_nonneg s) as Ho.
   unfold step_shape.
@@ -160,15 +163,15 @@ Proof.
 Qed.
 
 (* ---- folds ---- *)
-Lemma fold_shape_ext : forall l b, inside b (fold_left step_shape l b).
+Lemma fold_shape_ext : forall l b, inside b (fold_left (step_shape ltl) l b).
 Proof.
   induction l as [|s l IH]; intro b; [apply inside_refl|]. cbn [fold_left].
   eapply inside_trans; [apply step_shape_ext|apply IH].
 Qed.
 
 Lemma fold_shape_in (P : shape -> rect -> Prop) :
-  (forall b s r, P s r -> inside r (step_shape b s)) ->
-  forall l b s r, In s l -> P s r -> inside r (fold_left step_shape l b).
+  (forall b s r, P s r -> inside r (step_shape ltl b s)) ->
+  forall l b s r, In s l -> P s r -> inside r (fold_left (step_shape ltl) l b).
 Proof.
   intros HP. induction l as [|s0 l IH]; intros b s r Hin Hr; [destruct Hin|].
   cbn [fold_left]. destruct Hin as [->|Hin].
@@ -220,13 +223,13 @@ Proof.
 Qed.
 
 Lemma bbox_nonempty d s : In s (d_shapes d) ->
-  bbox d = fold_left step_conn (d_conns d) (fold_left step_shape (d_shapes d) bbox_start).
-Proof. unfold bbox. destruct (d_shapes d); [intros []|reflexivity]. Qed.
+  bbox_gen ltl d = fold_left step_conn (d_conns d) (fold_left (step_shape ltl) (d_shapes d) bbox_start).
+Proof. unfold bbox_gen. destruct (d_shapes d); [intros []|reflexivity]. Qed.
 
 (* ---- theorems ---- *)
 
 Theorem bbox_contains_core d s r :
-  In s (d_shapes d) -> 0 <= s_sw s -> 0 <= s_w s -> 0 <= s_h s -> In r (core_extents s) -> inside r (bbox d).
+  In s (d_shapes d) -> 0 <= s_sw s -> 0 <= s_w s -> 0 <= s_h s -> In r (core_extents s) -> inside r (bbox_gen ltl d).
 Proof.
   intros Hs Hsw Hw Hh Hr. rewrite (bbox_nonempty d s Hs).
   eapply inside_trans; [|apply fold_conn_ext].
@@ -236,7 +239,7 @@ Proof.
 Qed.
 
 Theorem bbox_contains_routes d s0 c r :
-  In s0 (d_shapes d) -> In c (d_conns d) -> In r (route_extents c) -> inside r (bbox d).
+  In s0 (d_shapes d) -> In c (d_conns d) -> In r (route_extents c) -> inside r (bbox_gen ltl d).
 Proof.
   intros Hs Hc Hr. rewrite (bbox_nonempty d s0 Hs).
   apply (fold_conn_in (fun c r => In r (route_extents c))) with (c := c); [|exact Hc|exact Hr].
@@ -284,11 +287,11 @@ Theorem bbox_contains_conn_labels_slack d s0 c l :
   In s0 (d_shapes d) -> In c (d_conns d) ->
   (c_label c = Some l \/ c_src c = Some l \/ c_dst c = Some l) ->
   fnum_wf (l_x l) -> fnum_wf (l_y l) ->
-  inside (clabel_rect l) (grow 1 (bbox d))
-  /\ (fl (l_x l) = ce (l_x l) -> fl (l_y l) = ce (l_y l) -> inside (clabel_rect l) (bbox d)).
+  inside (clabel_rect l) (grow 1 (bbox_gen ltl d))
+  /\ (fl (l_x l) = ce (l_x l) -> fl (l_y l) = ce (l_y l) -> inside (clabel_rect l) (bbox_gen ltl d)).
 Proof.
   intros Hs Hc Hl Hx Hy.
-  assert (T : inside (label_rect_trunc l) (bbox d)).
+  assert (T : inside (label_rect_trunc l) (bbox_gen ltl d)).
   { rewrite (bbox_nonempty d s0 Hs).
     apply (fold_conn_in (fun c r => exists l, (c_label c = Some l \/ c_src c = Some l \/ c_dst c = Some l)
                                               /\ r = label_rect_trunc l)) with (c := c); [|exact Hc|eauto].
@@ -334,23 +337,22 @@ Proof.
   lia.
 Qed.
 
-Theorem bbox_contains_shape_labels_slack d s pos lw lh :
-  In s (d_shapes d) -> s_label s = Some (pos, lw, lh) -> s_3d s = false -> s_mult s = false ->
+Theorem bbox_contains_shape_labels_gen d s pos lw lh :
+  In s (d_shapes d) -> s_label s = Some (pos, lw, lh) ->
+  (is_outside pos || is_border pos = true -> ltl s pos lw lh = draw_label_tl s pos lw lh) ->
   forall r, In r (label_extents s) ->
-    inside r (grow 1 (bbox d))
-    /\ (let '(px, py) := draw_label_tl s pos lw lh in Z.even px = true -> Z.even py = true -> inside r (bbox d)).
+    inside r (grow 1 (bbox_gen ltl d))
+    /\ (let '(px, py) := draw_label_tl s pos lw lh in Z.even px = true -> Z.even py = true -> inside r (bbox_gen ltl d)).
 Proof.
-  intros Hs Hl H3 Hm r Hr.
+  intros Hs Hl HE r Hr.
   unfold label_extents in Hr. rewrite Hl in Hr.
   destruct (is_outside pos || is_border pos); [|destruct Hr].
-  assert (E : draw_label_tl s pos lw lh = bbox_label_tl s pos lw lh).
-  { unfold draw_label_tl, bbox_label_tl. rewrite H3, Hm.
-    destruct (point_on_box pos (s_x s) (s_y s) (s_w s) (s_h s) LABEL_PADDING lw lh); reflexivity. }
+  assert (E : draw_label_tl s pos lw lh = ltl s pos lw lh) by (symmetry; apply HE; reflexivity).
   destruct (draw_label_tl s pos lw lh) as [px py] eqn:D. destruct Hr as [<-|[]].
-  assert (T : inside (htrunc px, htrunc py, htrunc px + lw, htrunc py + lh) (bbox d)).
+  assert (T : inside (htrunc px, htrunc py, htrunc px + lw, htrunc py + lh) (bbox_gen ltl d)).
   { rewrite (bbox_nonempty d s Hs). eapply inside_trans; [|apply fold_conn_ext].
     apply (fold_shape_in (fun s r => exists pos lw lh px py, s_label s = Some (pos, lw, lh)
-                                      /\ bbox_label_tl s pos lw lh = (px, py)
+                                      /\ ltl s pos lw lh = (px, py)
                                       /\ r = (htrunc px, htrunc py, htrunc px + lw, htrunc py + lh)))
       with (s := s); [|exact Hs|exists pos, lw, lh, px, py; auto].
     intros b s1 r1 (pos1 & lw1 & lh1 & px1 & py1 & L1 & T1 & ->).
@@ -363,7 +365,7 @@ Theorem bbox_contains_outside_icon d s pos bsize dsize :
   In s (d_shapes d) -> 0 <= s_sw s -> s_icon s = Some (pos, bsize, dsize) ->
   is_outside pos = true -> pos <> 1%N ->
   0 <= dsize <= bsize -> dsize + LABEL_PADDING <= s_w s -> dsize + LABEL_PADDING <= s_h s ->
-  forall r, In r (icon_extents s) -> inside r (bbox d).
+  forall r, In r (icon_extents s) -> inside r (bbox_gen ltl d).
 Proof.
   intros Hs Hsw Hi Ho Hn1 Hsz Hw Hh r Hr.
   rewrite (bbox_nonempty d s Hs). eapply inside_trans; [|apply fold_conn_ext].
@@ -417,6 +419,32 @@ Corollary viewport_contains_extent r bb pad lg root_sw dbl :
 Proof.
   intros Hp Hs Hr. eapply inside_trans; [|apply viewport_contains_bbox_plus_pad; assumption].
   drect r. drect bb. unrect. lia.
+Qed.
+
+End Gen.
+
+(* pinned code: without 3D / multiple copies BoundingBox uses the point drawShape draws at *)
+Theorem bbox_contains_shape_labels_slack d s pos lw lh :
+  In s (d_shapes d) -> s_label s = Some (pos, lw, lh) -> s_3d s = false -> s_mult s = false ->
+  forall r, In r (label_extents s) ->
+    inside r (grow 1 (bbox d))
+    /\ (let '(px, py) := draw_label_tl s pos lw lh in Z.even px = true -> Z.even py = true -> inside r (bbox d)).
+Proof.
+  intros Hs Hl H3 Hm. apply (bbox_contains_shape_labels_gen bbox_label_tl d s pos lw lh Hs Hl).
+  intros _. unfold draw_label_tl, bbox_label_tl. rewrite H3, Hm.
+  destruct (point_on_box pos (s_x s) (s_y s) (s_w s) (s_h s) LABEL_PADDING lw lh); reflexivity.
+Qed.
+
+(* repaired code (coq/C29/fix.patch): every outside / border label, also on 3D shapes and shapes with multiple
+   copies, is inside the reported box up to the truncation pixel *)
+Theorem bbox_fixed_contains_shape_labels d s pos lw lh :
+  In s (d_shapes d) -> s_label s = Some (pos, lw, lh) ->
+  forall r, In r (label_extents s) ->
+    inside r (grow 1 (bbox_fixed d))
+    /\ (let '(px, py) := draw_label_tl s pos lw lh in Z.even px = true -> Z.even py = true -> inside r (bbox_fixed d)).
+Proof.
+  intros Hs Hl. apply (bbox_contains_shape_labels_gen fixed_label_tl d s pos lw lh Hs Hl).
+  intro O. unfold fixed_label_tl. rewrite O. reflexivity.
 Qed.
 
 (* ---- the unguarded statements are false on the faithful model ---- *)
